@@ -109,7 +109,8 @@ def check(ctx):
     ctx.attempt(ilots_after_l)
     ctx.attempt(forward.check_all, module_suffixes=('containers.containers', 'tractwriter.tractwriter', 'plssdesc.plssdesc'))
     # cell fidelity: a list attribute is written entry by entry, repeated entries included
-    ctx.attempt(common.dedup_idioms, [f for f in ctx.repo.funcs.values() if f.module.name.endswith(('containers.containers', 'tractwriter.tractwriter'))])
+    ctx.attempt(common.dedup_idioms, [f for f in ctx.repo.funcs.values() if f.module.name.endswith(('containers.containers', 'tractwriter.tractwriter', 'pytrs.utils', 'tract.tract'))])
+    ctx.attempt(_csv_always_written)
     # one row per tract: the collectors behind the writers keep every element
     ctx.attempt(common.first_element_speaks_for_all, [f for f in ctx.repo.funcs.values() if f.module.name.endswith('containers.containers')])
     ctx.attempt(common.no_dedup_on_insert, [f for f in ctx.repo.funcs.values() if f.module.name.endswith(('containers.containers', 'tractwriter.tractwriter'))])
@@ -386,3 +387,21 @@ def _headers(ctx):
                     and c.func.attr in ('append', 'extend', 'insert', 'pop', 'remove'):
                 ctx.violation('ESCAPE', f"{m.qualname}: {norm(c)[:40]}", "the writer's attribute list is mutated",
                               key=f"ESCAPE|{m.qualname}|attributes")
+
+
+def _csv_always_written(ctx):
+    """tracts_to_csv opens (creates / truncates / appends to) the file on
+    every call: a `return` in front of the `open(...)` - "nothing to write" -
+    leaves a new path without file and header, and under mode 'w' an existing
+    file with its OLD rows, so the file no longer has one row per tract."""
+    fi = ctx.repo.func('TractList.tracts_to_csv')
+    opens = [c for c in walk_local(fi.node) if isinstance(c, ast.Call) and (dotted(c.func) or '').split('.')[-1] == 'open']
+    if not opens:
+        ctx.undecided('SIB', 'tracts_to_csv opens the file on every call', 'open() not found')
+        return
+    first = min(c.lineno for c in opens)
+    early = [r for r in walk_local(fi.node) if isinstance(r, ast.Return) and r.lineno < first]
+    ctx.check(not early, 'SIB', 'tracts_to_csv opens the file on every call',
+              detail_bad=f"the `return` at line {early[0].lineno if early else 0} comes before the file is opened: for that input (an empty list) "
+                         f"mode 'w' neither creates nor truncates the file - a new path gets no header, an existing file keeps the rows "
+                         f"of an earlier export", key="SIB|tracts_to_csv|early-return", where=common.loc(fi, early[0]) if early else None)
